@@ -67,6 +67,23 @@ def _check_reference(rep, curve):
         n = m.neg(p)
         require(rep, R.prove_equal(n[0], p[0]) == "zero" and R.prove_equal(n[1], -p[1]) == "zero", "reference neg = (x, -y)", None, rp("neg"))
 
+    # eq
+    def fn_eq(R):
+        p1, p2 = _apt(R, "1"), _apt(R, "2")
+        return p1, p2, m.eq(p1, p2), m.eq(p1, None), m.eq(None, None)
+    outs = set()
+    for pth, R in ring.run_paths(fn_eq, lambda: Ring(None)):
+        rep.paths += 1
+        if pth.kind != "ret":
+            rep.fail("reference eq raised %r" % (pth.value,), rp("eq"))
+            continue
+        p1, p2, e, e_inf, e_ii = pth.value
+        asg, un = c13._classify(R, {"dx": p2[0] - p1[0], "dy": p2[1] - p1[1]})
+        same = asg.get("dx") == "zero" and asg.get("dy") == "zero"
+        outs.add(bool(e))
+        require(rep, bool(e) == same and not e_inf and e_ii, "reference eq is coordinate-wise equality; infinity equals only infinity", lits_summary(R), rp("eq"))
+    require(rep, outs == {True, False}, "reference eq can answer both ways", None, rp("eq"))
+
     def fn_d(R):
         p = _apt(R, "1")
         R.declare_nonzero(p[1])
